@@ -20,11 +20,11 @@ type Outcome = probe.Outcome
 type Action = probe.Action
 
 type RaceReport struct {
-	Scenario string
-	Prog     string
-	Text     string
-	Key      string
-	Band     bool // a frame in a generated file
+	Scenario  string
+	Prog      string
+	Text      string
+	Key       string
+	Band      bool // a frame in a generated file
 	ProbeOnly bool
 }
 
